@@ -2,4 +2,5 @@ pub mod faults;
 pub mod g01;
 pub mod g02;
 pub mod g05;
+pub mod g14;
 pub mod templates;
